@@ -6,11 +6,24 @@ ROOT = os.path.dirname(os.path.abspath(__file__))
 files = [p for p in glob.glob(os.path.join(ROOT, "lean", "Driver", "*.lean")) if not p.endswith("All.lean")]
 defs = collections.defaultdict(list)
 pat = re.compile(r"^(partial def|def|abbrev|instance|structure|inductive)\s+([A-Za-z_][\w.']*)", re.M)
+def qualified(p):
+    """(qualified name, bare name) of top-level definitions, tracking `namespace … end`"""
+    ns, out = [], []
+    for l in open(p).read().split("\n"):
+        m0 = re.match(r"^namespace\s+(\S+)", l)
+        if m0: ns.append(m0.group(1)); continue
+        m1 = re.match(r"^end\s+(\S+)\s*$", l)
+        if m1 and ns and ns[-1] == m1.group(1): ns.pop(); continue
+        m = pat.match(l)
+        if m: out.append((".".join(ns + [m.group(2)]), m.group(2)))
+    return out
+bare = {}
 for p in files:
-    for m in pat.finditer(open(p).read()):
-        defs[m.group(2)].append(p)
+    for q, b in qualified(p):
+        defs[q].append(p); bare[q] = b
 changed = 0
-for name, ps in defs.items():
+for qname, ps in defs.items():
+    name = bare[qname]
     if len(set(ps)) < 2 or name.startswith("ops"):
         continue
     for p in set(ps):
